@@ -69,8 +69,7 @@ def r51(facts, res):
             res.ok(R, key, loc_of(b, bb), 'new_faulty(tok, next_lexeme(laidx).span().start(), 0) fed to an LR step over [laidx, laidx+1)')
 
 
-def r52(facts, res):
-    R = 'R5.2'
+def r52(facts, res, R='R5.2'):
     b = facts.one(R, 'ends_with_parse_at_least_shifts', crate='lrpar', name='ends_with_parse_at_least_shifts')
     takes = b.calls_named('take')
     tk = None
@@ -90,6 +89,44 @@ def r52(facts, res):
         res.ok(R, 'parse-at-least', loc_of(b), 'looks at the last %d repairs and requires %d shifts' % (tk, eqs[0]))
     else:
         res.bad(R, 'parse-at-least', loc_of(b), 'inspects the last %s repairs but requires %s shifts; the documented criterion is 3 and 3' % (tk, sorted(set(eqs))))
+    # what counts as a shift: in both places that count trailing shifts (the success test and the node-compatibility
+    # test) an element is counted iff it is Repair(Shift) or Merge(Shift, _) - a merged Insert/Delete is not a shift
+    rpa = facts.adt('lrpar::cpctplus::Repair')
+    rma = facts.adt('lrpar::cpctplus::RepairMerge')
+    shift_d = [v['discr'] for v in rpa['variants'] if v['name'] == 'Shift'][0]
+    rmn = {v['discr']: v['name'] for v in rma['variants']}
+    counters = [b]
+    for eqb in facts.lib_bodies(['lrpar']):
+        if eqb.kind == 'closure' and 'PathFNode' in (eqb.parent or '') and eqb.loops():
+            counters.append(eqb)
+    for cb in counters:
+        loops = cb.loops()
+        if len(loops) != 1:
+            res.lost(R, '%s: expected one counting loop' % cb.path)
+            continue
+        h = list(loops)[0]
+        w2 = Walker(cb, facts, max_paths=64)
+        ps2 = [p for p in w2.run(h, stop=lambda x: x == h or x not in loops[h]) if p.end in (('loop', h), ('stop', h))]
+        okc = bool(ps2)
+        seenv = set()
+        for p in ps2:
+            incs = [(k, v) for k, v in p.env.items() if isinstance(k[0], int) and not k[1] and isinstance(v, tuple) and v[0] == 'bin' and v[1] == 'Add' and v[3] == ('const', 1)]
+            if not incs:
+                continue  # a cycle that does not count (none expected)
+            outer = [v for c, v in p.conds if c[0] == 'discr' and c[1][0] in ('deref', 'field', 'call', 'uninit') and not term_has(c[1], lambda x: isinstance(x, tuple) and x[0] == 'downcast' and x[1][0] != 'call')]
+            inner = [(c, v) for c, v in p.conds if c[0] == 'discr' and c[1][0] == 'field' and c[1][1][0] == 'downcast' and c[1][1][1][0] != 'call']
+            ov = [v for c, v in p.conds if c[0] == 'discr' and isinstance(v, int) and v in rmn and not (c[1][0] == 'field' and c[1][1][0] == 'downcast' and c[1][1][1][0] != 'call')
+                  and not (c[1][0] == 'call')]
+            kind = rmn.get(ov[-1]) if ov else None
+            seenv.add(kind)
+            if not any(v == shift_d for c, v in inner):
+                okc = False
+                res.bad(R, 'shift-count:%s' % strip_generics(cb.path).split('::')[-2 if cb.kind == 'closure' else -1], loc_of(cb, h),
+                        'an element of kind %s is counted as a shift without checking that its repair IS a shift (a merged Insert/Delete would count)' % (kind or '?'))
+                break
+        if okc and ps2:
+            res.ok(R, 'shift-count:%s' % strip_generics(cb.path).split('::')[-2 if cb.kind == 'closure' else -1], loc_of(cb, h),
+                   'an element is counted iff it is Repair(Shift) or Merge(Shift, _)')
     # the success closure
     rec = [x for x in facts.lib_bodies(['lrpar']) if x.name == 'recover' and 'CPCTPlus' in (x.impl_of or '')]
     if len(rec) != 1:
